@@ -115,6 +115,8 @@ type explorer struct {
 	// CellStore: a store/call instruction that writes a tracked cell; returns the
 	// cell and the value expression.
 	CellStore func(i ssa.Instruction, fr *frame) (string, ssa.Value, bool)
+	// BlockHook: called when a block is entered (with the predecessor); may end the path with the given results
+	BlockHook func(b, prev *ssa.BasicBlock, st *pstate, fr *frame) ([]aval, bool)
 	// Event describes an instruction the property cares about; ok=false: none.
 	// If stop is true the callee is not inlined.
 	Event func(i ssa.Instruction, e *explorer, st *pstate, fr *frame) (desc string, ok bool, noInline bool)
@@ -197,6 +199,13 @@ func (e *explorer) execBlock(st *pstate, fr *frame, b, prev *ssa.BasicBlock, idx
 		return
 	}
 	if idx == 0 {
+		if e.BlockHook != nil {
+			if rets, stop := e.BlockHook(b, prev, st, fr); stop {
+				e.paths++
+				k(st, fr, rets, nil)
+				return
+			}
+		}
 		fr.visits[b]++
 		if fr.visits[b] > 2 {
 			return // loop bound: each block at most twice per activation path
